@@ -3,7 +3,7 @@
 tier=${1:-quick}; seed=${2:-0}
 cd "$(dirname "$0")/.." || exit 2
 rc=0
-for p in C01 C02 C03 C04 C05 C06 C07 C08 C09 C10 C11 C12 C13 C14 C15 C16 C17 C18 C19; do
+for p in ${PROPS:-C01 C02 C03 C04 C05 C06 C07 C08 C09 C10 C11 C12 C13 C14 C15 C16 C17 C18 C19}; do
   out=$(VERIF_SEED=$seed ./check $p --tier $tier 2>&1); c=$?
   echo "$out" | grep -E "^(VIOLATION|HARNESS|$p )" | cut -c1-220
   [ $c -ne 0 ] && { rc=1; echo "  -> exit $c for $p"; echo "$out" | tail -5 | cut -c1-300; }
